@@ -176,6 +176,12 @@ Construct(p) ==
                   /\ ucache' = [ucache EXCEPT ![p] = u] /\ last' = u
              ELSE /\ last' = Raise /\ UNCHANGED ucache
 
+(* Calls that the property says cannot matter for later resolutions: printing, hashing or copying a Unit object that *)
+(* already exists (str, repr, hash, copy(), copy(deep=True), pickle round trip of the unit).  In the specification    *)
+(* they are stuttering steps - every behaviour with such steps inserted anywhere is again a behaviour - so the replay  *)
+(* harness inserts all of them after every step of every history on every Unit created so far (impl_c12._stutter).     *)
+Stutter == UNCHANGED vars
+
 (* ---- C12 on the abstract state ---- *)
 \* what Unit(p, registry=r) would return right now (no state change)
 Peek(p) == IF ucache[p] # None THEN ucache[p]
